@@ -22,10 +22,10 @@ NiterOK(e, first) == CASE e.code = 0 -> e.niter >= (IF first THEN 20 ELSE 10) /\
                        [] e.code = 2 -> e.niter = 50
                        [] e.code = 4 -> e.niter = 0
                        [] OTHER -> e.niter >= 1 /\ e.niter <= 50
-CanOut == j <= NEv /\ phase = "out" /\ Ev.ph = "fit" /\ Ev.k = k /\ (noiter <=> Ev.code = 4) /\ NiterOK(Ev, j = 1)
-CanIn == j <= NEv /\ phase = "in" /\ Ev.ph = "fit" /\ Ev.k = k /\ Ev.code # 4 /\ NiterOK(Ev, FALSE)
+CanOut == j <= NEv /\ phase = "out" /\ Ev.ph = "fit" /\ Ev.k = k /\ ((noiter \/ Rit(C.par, k)) <=> Ev.code = 4) /\ NiterOK(Ev, j = 1)
+CanIn == j <= NEv /\ phase = "in" /\ Ev.ph = "fit" /\ Ev.k = k /\ (Rit(C.par, k) <=> Ev.code = 4) /\ NiterOK(Ev, FALSE)
 CanCentral == phase = "central" /\ (C.par.MinZero => (j <= NEv /\ Ev.ph = "central" /\ Ev.niter = 0 /\ Ev.code = 0))
-StepOut == CanOut /\ FitOut(C.par, Ev.code) /\ j' = j + 1 /\ i' = i
+StepOut == CanOut /\ FitOut(C.par, Ev.code, Ev.thin) /\ j' = j + 1 /\ i' = i
 StepIn == CanIn /\ FitIn(C.par, Ev.code) /\ j' = j + 1 /\ i' = i
 StepCentral == CanCentral /\ CentralAndSort(C.par) /\ j' = (IF C.par.MinZero THEN j + 1 ELSE j) /\ i' = i
 Over == phase \in {"done", "crash"} \/ (~CanOut /\ ~CanIn /\ ~CanCentral)
